@@ -76,7 +76,17 @@ type worldRun struct {
 
 var realWallLimit = 60 * time.Second
 
+// runWorld runs one command world; a watchdog hit is retried once with three
+// times the limit, so that a loaded machine is not mistaken for a hang.
 func runWorld(a *artefacts, spec *simrt.Spec) *worldRun {
+	wr := runWorldOnce(a, spec, realWallLimit)
+	if wr.Watchdog {
+		wr = runWorldOnce(a, spec, 3*realWallLimit)
+	}
+	return wr
+}
+
+func runWorldOnce(a *artefacts, spec *simrt.Spec, limit time.Duration) *worldRun {
 	d := tmpDir()
 	defer os.RemoveAll(d)
 	sp := filepath.Join(d, "spec.json")
@@ -88,7 +98,7 @@ func runWorld(a *artefacts, spec *simrt.Spec) *worldRun {
 	if err := os.WriteFile(sp, b, 0o644); err != nil {
 		return &worldRun{Err: err}
 	}
-	ctx, cancel := context.WithTimeout(context.Background(), realWallLimit)
+	ctx, cancel := context.WithTimeout(context.Background(), limit)
 	defer cancel()
 	cmd := exec.CommandContext(ctx, a.Sim)
 	cmd.Env = []string{"VERIF_WORLD=" + sp, "VERIF_RESULT=" + rp, "GOMAXPROCS=" + worldGOMAXPROCS(spec), "GOGC=400", "HOME=/nonexistent", "PATH=/nonexistent"}
